@@ -122,6 +122,31 @@ VDiff(e) == LET a == Docs[e.di]  b == Docs[e.di2] IN
   ELSE IF <<e.end.a, e.end.b>> # DiffEnd(a, b) THEN "bad:DiffEnd"
   ELSE "ok"
 
+(* C16: a merged step is equivalent to the two steps it replaces, on every document of the case list *)
+VMerge(e) ==
+  IF e.merged.type = "none"
+  THEN (IF Merge(e.s1, e.s2).type # "none" THEN "drift:RefMerges" ELSE "ok")
+  ELSE LET bad == {j \in 1..Len(e.cases) :
+                     DocOKTab[e.cases[j].di] /\ e.cases[j].pair.kind = "ok"
+                     /\ ~(e.cases[j].m.kind = "ok" /\ e.cases[j].mout = e.cases[j].pout)} IN
+       IF bad # {} THEN "bad:MergedDiffers"
+       ELSE IF ~(\E j \in 1..Len(e.cases) : DocOKTab[e.cases[j].di] /\ e.cases[j].pair.kind = "ok") THEN "skip:pair-applies-nowhere"
+       ELSE IF Merge(e.s1, e.s2) # e.merged THEN "drift:RefMergeDiffers"
+       ELSE "ok"
+
+(* C17: separated steps commute after rebasing *)
+SeparatedSteps(a, b) == LET ta == Touched(a)  tb == Touched(b) IN
+  ta[1] <= ta[2] /\ tb[1] <= tb[2] /\ (ta[2] + 1 <= tb[1] \/ tb[2] + 1 <= ta[1])
+VCommute(e) == LET d == Docs[e.di] IN
+  IF ~DocOKTab[e.di] \/ ~StepPre(d, e.a) \/ ~StepPre(d, e.b) THEN "skip:pre"
+  ELSE IF e.ra.kind # "ok" \/ e.rb.kind # "ok" THEN "skip:notapplied"
+  ELSE IF ~SeparatedSteps(e.a, e.b) THEN "skip:notseparated"
+  ELSE IF e.am.type = "none" \/ e.bm.type = "none" THEN "bad:DroppedByRebase"
+  ELSE IF e.ab.kind # "ok" \/ e.ba.kind # "ok" THEN "bad:RebasedDoesNotApply"
+  ELSE IF e.about # e.baout THEN "bad:Diverged"
+  ELSE IF e.am # MapOver(e.a, GetMap(e.b)) \/ e.bm # MapOver(e.b, GetMap(e.a)) THEN "drift:MapStep"
+  ELSE "ok"
+
 ----------------------------------------------------------------------------
 (* C07: validity predicates.  A node is given as (type name, content tokens). *)
 NodeKids(e) == LET d == Docs[e.di] IN Kids(d, MatchArr(d), 1, Len(d))
@@ -175,6 +200,8 @@ Verdict(e) ==
     [] e.ev = "StepMap" -> VStepMap(e)
     [] e.ev = "Invert" -> VInvert(e)
     [] e.ev = "Diff" -> VDiff(e)
+    [] e.ev = "Merge" -> VMerge(e)
+    [] e.ev = "Commute" -> VCommute(e)
     [] e.ev = "Check" -> VCheck(e)
     [] e.ev = "ValidContent" -> VValidContent(e)
     [] e.ev = "CreateChecked" -> VCreateChecked(e)
